@@ -88,7 +88,11 @@ func newScope(rootProvider *provider, parent *scope, ctx context.Context, cancel
 // runInitializers calls the scoped services with no returns (initialization functions).
 // These need to be called when the scope is created.
 func (s *scope) runInitializers() error {
-	for _, descriptor := range s.rootProvider.voidReturnScopedDescriptors {
+	s.rootProvider.voidReturnScopedDescriptorsMu.RLock()
+	initializers := s.rootProvider.voidReturnScopedDescriptors
+	s.rootProvider.voidReturnScopedDescriptorsMu.RUnlock()
+
+	for _, descriptor := range initializers {
 		if _, err := s.createInstance(descriptor); err != nil {
 			return &ResolutionError{
 				ServiceType: descriptor.Type,
